@@ -56,6 +56,10 @@ void enum_cleanup()
                {
                   // nothing between CT_BRACE_OPEN and CT_BRACE_CLOSE
                }
+               else if (prev->Is(CT_IGNORED))
+               {
+                  // the last enumerator lies in a disabled region: its line is not ours to change
+               }
                else
                {
                   log_rule_B("mod_enum_last_comma");
